@@ -21,7 +21,7 @@ ROOT = os.path.dirname(os.path.dirname(os.path.abspath(__file__)))
 REPO = os.environ.get("VERIF_REPO", "/repo")
 
 LEMMA_MODULES = ["lemmas.asm_forms", "lemmas.asm_special", "lemmas.asm_data", "lemmas.asm_expr", "lemmas.asm_layout",
-                 "lemmas.tape", "lemmas.disk", "lemmas.disk_wtg", "lemmas.vfile", "lemmas.cli", "lemmas.frames", "lemmas.meta", "lemmas.include"]
+                 "lemmas.tape", "lemmas.disk", "lemmas.disk_wtg", "lemmas.disk_addfile", "lemmas.vfile", "lemmas.cli", "lemmas.frames", "lemmas.meta", "lemmas.include"]
 
 
 def all_lemmas():
